@@ -18,7 +18,7 @@ PROPS = {
         'outside': 'the LALRPOP parser driver / lexer (which production fires for which text) is validated by native '
                    'runs of the real parser on rendered instructions, not by the solver',
         'backends': [(r'^c01_', ['z3', 'cvc5', 'sat-arrays']), (r'_(rr|ri)(8|16)$|_unary_r(8|16)$', ['sat', ('cvc5', 'z3')]), (r'.*', [('cvc5', 'z3'), 'sat-arrays'])],
-        'timeout': {'quick': 600, 'thorough': 1800},
+        'timeout': {'quick': 1200, 'thorough': 3000},
         'assumptions': ['B-harnesses take the physical address of a memory operand as an arbitrary symbolic value (that it is the right address is C04)'],
         'level_text': 'bounded model checking with no bound needed (loop-free): CBMC decides every labelled obligation '
                       '(result, each of the six flags, other flag bits, registers, a symbolic memory probe cell) for all '
@@ -37,7 +37,7 @@ PROPS['C02'] = {
     'outside': 'parser driver / lexer (validated natively)',
     'backends': [(r'^c02_(byte|word)_(sal|shr|sar|rol|ror|rcl|rcr)$', ['sat', 'z3']), (r'^c02_', ['z3', 'cvc5', 'sat-arrays']),
                  (r'_(rr|ri|rc)(8|16)$', ['sat', ('cvc5', 'z3')]), (r'.*', [('cvc5', 'z3'), 'sat-arrays'])],
-    'timeout': {'quick': 600, 'thorough': 1800},
+    'timeout': {'quick': 1200, 'thorough': 3000},
     'assumptions': ['OF is compared only for count = 1 and AF never (architecturally undefined)'],
     'level_text': 'bounded model checking; the bound (256 loop iterations of the reference) covers the complete count '
                   'domain, so within the stated trusted base every (value, count, carry-in) is decided',
@@ -50,7 +50,7 @@ PROPS['C03'] = {
     'outside': 'the driver\'s INT 0 message and exit (inside CMDDriver::run)',
     'backends': [(r'_frame_|_twin_|_frame$', [('z3', 'cvc5'), 'sat-arrays']), (r'c03_word_i?div$', ['z3', 'cvc5']),
                  (r'^c03b_unary_r(8|16)_k', [('z3', 'cvc5'), 'sat']), (r'^c03b_', [('cvc5', 'z3'), 'sat-arrays']), (r'.*', ['sat', 'z3'])],
-    'timeout': {'quick': 400, 'thorough': 1800},
+    'timeout': {'quick': 900, 'thorough': 2400},
     'assumptions': ['word DIV/IDIV: the reference uses Rust\'s own / and % on the same operands (a divider-vs-multiplier query does not finish); byte DIV/IDIV are checked against the multiplicative definition n = q*d + r',
                     'flags that the manual leaves undefined are not compared',
                     'DAA/DAS: the 1979 (adjusted AL > 9Fh) and the later (original AL > 99h) formulations are both accepted',
@@ -77,7 +77,7 @@ PROPS['C05'] = {
     'bounds': 'each production from an arbitrary state (the inductive step of any stack history); PUSH x; POP y; a fixed 4-step history; every interleaving of 4 (quick) / 6 (thorough) pushes and pops of symbolically chosen registers against a reference stack',
     'outside': 'memory operands of PUSH/POP that overlap the stack cells being transferred; PUSH SP / POP SP accept both documented behaviours; the assembler side of push/pop is C10/C11',
     'backends': [(r'_(rr8|rr16|ri8|ri16|sr|rs)$', ['sat', ('cvc5', 'z3')]), (r'pair|lifo|history', [('cvc5', 'z3'), 'sat-arrays']), (r'.*', [('cvc5', 'z3'), 'sat-arrays'])],
-    'timeout': {'quick': 600, 'thorough': 1800},
+    'timeout': {'quick': 1200, 'thorough': 3000},
     'assumptions': ['the physical address of a memory operand is an arbitrary symbolic value (C04 decides that it is the right one)'],
     'level_text': 'bounded model checking: every production is decided for all register, flag, address and memory contents '
                   '(loop-free), including SP = 0/1/0xFFFF and SS:SP at the top of the 1 MiB space',
@@ -101,7 +101,7 @@ PROPS['C07'] = {
     'bounds': 'kernels: loop-free, all states; REP protocol: CX <= 3 (quick) / CX <= 8 (thorough), unwinding assertions on; larger CX outside the claim',
     'outside': 'word elements at offset 0xFFFF (second byte: physical successor vs. wrap) -- totality for them is C09; the driver loop that re-parses on REPEAT is played by the harness (reduction order validated natively)',
     'backends': [(r'rep_protocol|mnemonic|^c07s_', ['sat', 'z3']), (r'^c07d_', [('z3', 'cvc5'), 'sat-arrays']), (r'.*', [('z3', 'cvc5'), 'sat-arrays'])],
-    'timeout': {'quick': 600, 'thorough': 2400},
+    'timeout': {'quick': 1200, 'thorough': 3000},
     'assumptions': ['REP harness: the string kernel is replaced by a scripted body passed as the semantic value of string_instructions (the productions receive the kernel as a value); the kernels themselves are the A-harnesses'],
     'level_text': 'bounded model checking: kernels for every state; prefix protocol for every CX within the bound and every sequence of comparison outcomes',
     'level_note': 'trusted: Kani/CBMC/solver soundness; CX beyond the bound is outside the claim',
@@ -114,7 +114,7 @@ PROPS['C09'] = {
     'bounds': 'loop-free (String loops over 1-character names unwound 6 times); label / procedure table with one name, call stack depth <= 2',
     'outside': 'the LALRPOP parser driver and lexer; numeric leaves that parse digit text (C11/C15); console interrupts (C18) and print (C17) live in the binary crate',
     'backends': [(r'unary_arithmetic', [('z3', 'cvc5', 'sat-arrays')]), (r'.*', [('z3', 'cvc5'), 'sat-arrays'])],
-    'timeout': {'quick': 600, 'thorough': 1800},
+    'timeout': {'quick': 1200, 'thorough': 3000},
     'assumptions': ['argument domains: addresses < 2^20 (C04 address_in_range), register values <= 0xFFFF, numbers over their whole type',
                     'alloc::fmt::format is stubbed (error-message text is not the subject)', 'label table = association list under Kani'],
     'level_text': 'bounded model checking of every interpreter action for every state: the aborts this property is about (shift by the width, MIN / -1, index arithmetic) occur at isolated values',
@@ -127,7 +127,7 @@ PROPS['C19'] = {
     'bounds': 'loop-free; one instruction step',
     'outside': 'byte-identical CLI output across processes (HashSet iteration order seeded by the OS inside CMDDriver::run), reuse of parser objects (the generated parse(&self) holds only immutable lexer tables: a typing argument), threads',
     'backends': [(r'vm_new|twin', ['sat-arrays', 'z3']), (r'determinism', ['sat', ('z3', 'cvc5')]), (r'.*', [('z3', 'cvc5'), 'sat-arrays'])],
-    'timeout': {'quick': 600, 'thorough': 1800},
+    'timeout': {'quick': 1200, 'thorough': 3000},
     'assumptions': ['determinism is decided for register-only instructions (two arbitrary 1 MiB memories cannot be assumed equal cell by cell)'],
     'level_text': 'bounded model checking of the machine clauses; the process-level clauses of the statement are not claimed',
     'level_note': 'partial claim: fresh machine, isolation, determinism of a step; output reproducibility and parser reuse are outside (DESIGN.md C19)',
@@ -161,7 +161,7 @@ PROPS['C12'] = {
     'bounds': 'loader arrays: n <= 4 elements (quick) / 16 (thorough), strings from a fixed set of 4 (lengths 0-3), unwinding assertions on; counter < 2^17; the assembler side is loop-free: all n <= 65535 and all counters',
     'outside': 'vm.arch.ds = 0 before execution and the loop that feeds the data lines (inside CMDDriver::run); longer arrays/strings than the bound',
     'backends': [(r'^c12_loader|^c12_twin', [('z3', 'cvc5'), 'sat-arrays']), (r'.*', ['sat', 'z3'])],
-    'timeout': {'quick': 600, 'thorough': 2400},
+    'timeout': {'quick': 1200, 'thorough': 3000},
     'assumptions': ['string bodies: the assembler class [[:print:]] is a subset of the loader class [[:ascii:]] (regex classes, read from the grammars)'],
     'level_text': 'bounded model checking of one directive from an arbitrary loader / assembler state (the inductive step); the composition over a sequence of directives is the induction, stated in DESIGN.md',
     'level_note': 'trusted: Kani/CBMC/solver soundness; loader loop bound as stated',
@@ -199,7 +199,7 @@ PROPS['C18'] = {
     'bounds': 'input line: lengths 0, 1, 2 enumerated with symbolic content (quick), + 3 and 6 (AH=1) in the thorough tier; CX <= 4 / 8, DL <= 4 / 8 for the output loops; capacity byte, DS:DX, ES:BP, memory unconstrained',
     'outside': 'AH validation, "unsupported ... stops the program" and the int n dispatch (inside CMDDriver::run); real terminal behaviour; longer input lines (std String code over a symbolic length plus a symbolic memory index does not finish on any back end)',
     'backends': [(r'int10_count', ['sat', 'z3']), (r'int10', ['sat-arrays', ('z3', 'cvc5')]), (r'.*', [('z3', 'cvc5'), 'sat-arrays'])],
-    'timeout': {'quick': 600, 'thorough': 2400},
+    'timeout': {'quick': 1200, 'thorough': 3000},
     'assumptions': ['in the scratch copy std::io::stdin().read_line is textually replaced by a stub and print!/println! are shadowed by logging macros (lib/gen.py); input is 7-bit ASCII without embedded line terminators'],
     'level_text': 'bounded model checking of the service routines for every register / memory state and every input line within the bound',
     'level_note': 'trusted: Kani/CBMC/solver soundness, std::fmt for turning the logged values into text',
@@ -212,7 +212,7 @@ PROPS['C17'] = {
     'bounds': 'printed range <= 17 bytes (start arbitrary, so ranges ending at 0xFFFFF are covered), unwinding assertions on',
     'outside': 'rendering of the logged values into text (std::fmt), the interactive prompt path (user_interface), the assembler/interpreter side of the print statement (C10/C14)',
     'backends': [(r'reg_flags', ['sat', 'z3']), (r'print_mem', ['sat-arrays', ('z3', 'cvc5')]), (r'.*', [('z3', 'cvc5'), 'sat-arrays'])],
-    'timeout': {'quick': 600, 'thorough': 2400},
+    'timeout': {'quick': 1200, 'thorough': 3000},
     'assumptions': ['print!/println! are shadowed by logging macros in the scratch copy (lib/gen.py); the argument expressions are the real ones'],
     'level_text': 'bounded model checking of value flow and range logic for every machine state and every range within the bound',
     'level_note': 'partial claim: values and ranges, not the final text; no prompt',
